@@ -100,7 +100,7 @@ def run():
         "generated command removes/replaces a dropped path only and links to the first retained file; Kani/CBMC on "
         "FsCommand::execute over the model file system shows that executing a command never touches the retained file, an "
         "unrelated file or an existing move target.  Report round trip is C10; staleness is C04.",
-        assumptions=["FileSubGroup::group returns a partition of its input (contract)", "stubs of the Kani model file system as in C05"],
+        assumptions=["stubs of the Kani model file system as in C05 (their bodies are checked on the MIR)"],
         outside=["whole-tree inventory", "rayon scheduling of run_script", "--match-links --symbolic-links (excluded by the property)", "real file systems"])
     ctx = oblig.Ctx()
     prog = ctx.lib
@@ -122,6 +122,15 @@ def run():
         specs = [s for s in specs if s["harness"] in ("fs_move", "fs_hardlink")]
     e1.run_harnesses(rep, "C02", src, specs, jobs=8, timeout=1500 if tier() == "quick" else 3600,
                      replayer=e1.fs_replayer("faults", FSOPS))
+    from obligations import C05, C06
+    C05.wrappers(rep)
+    # "max(1, n) replicas": a replica is a sub-group - the sub-grouping itself (hard-link sets, isolate roots) is part of the claim
+    try:
+        C06.sub_group_obligations(rep, ctx)
+    except Inconclusive as ex:
+        o = Obligation("sub-grouping", "E2 mirsym/z3")
+        o.verdict, o.detail = "inconclusive", str(ex)
+        rep.add(o)
     return rep
 
 
